@@ -120,6 +120,8 @@ type c19Script struct {
 	layout bool
 	cfg    c19Cfg
 	run    string // "none" | "built" | "parsed"
+	// again: after this definitions has been returned the same builder builds another one; the first is looked at again
+	again bool
 	// an EARLIER AutoLayout on the same builder (with this configuration), before the one with `cfg`: the diagram of the
 	// result is the one of the last call
 	first *c19Cfg
@@ -338,6 +340,7 @@ func c19Case(out *rec.Out, sc c19Script, stats map[string]int) {
 		c19U(sc.cfg.pg), layout)
 	_ = n
 	var def *schema.Definitions
+	var db *schema.DefinitionBuilder
 	panicked := ""
 	func() {
 		defer func() {
@@ -346,7 +349,7 @@ func c19Case(out *rec.Out, sc c19Script, stats map[string]int) {
 			}
 		}()
 		out.Line("s newdb")
-		db := schema.NewDefinitionsBuilder()
+		db = schema.NewDefinitionsBuilder()
 		var pb *schema.ProcessBuilder
 		for i, acts := range sc.procs {
 			if i == 0 || !sc.reuse {
@@ -400,6 +403,37 @@ func c19Case(out *rec.Out, sc c19Script, stats map[string]int) {
 	desc := c19Describe(def)
 	for _, l := range desc {
 		out.Line("d %s", l)
+	}
+	if sc.again {
+		// the SAME builder goes on to build another definitions (two processes of three tasks each, laid out): what it
+		// returned before is a finished document and stays what it was
+		func() {
+			defer func() {
+				if r := recover(); r != nil {
+					out.Line("again panic %s", c19Tok(fmt.Sprint(r)))
+				}
+			}()
+			for k := 0; k < 2; k++ {
+				pb2 := schema.NewProcessBuilder()
+				for a := 0; a < 3; a++ {
+					pb2.AddActivity(c19NewAct("task"))
+				}
+				db.AddProcess(*pb2.Out())
+			}
+			db.AutoLayout(schema.DefaultAutoLayoutConfig())
+			_ = db.Out()
+		}()
+		after := c19Describe(def)
+		changed := len(after) != len(desc)
+		if !changed {
+			for i := range after {
+				if after[i] != desc[i] {
+					changed = true
+				}
+			}
+		}
+		out.Line("again changed %d", rec.B(changed))
+		stats["builders_used_for_a_second_definitions"]++
 	}
 	// XML round trip, as the tests do: xml.Marshal then schema.Parse
 	var parsed *schema.Definitions
@@ -677,6 +711,7 @@ func c19(out *rec.Out, rng *rec.Rng, tier string, stats map[string]int) {
 			run = runMode(c)
 		}
 		sc := c19Script{procs: procs, reuse: rng.Bool(), layout: rng.Intn(8) != 0, cfg: c19RandCfg(rng), run: run}
+		sc.again = c%4 == 2
 		if c%3 == 1 {
 			// the builder is laid out twice (README: lay out, look, change the spacing, lay out again)
 			f := c19RandCfg(rng)
